@@ -37,6 +37,37 @@ def spec(letter, qtype):
     return {"X": "rcode=NXDOMAIN", "S": "rcode=SERVFAIL", "R": "rcode=REFUSED", "F": "rcode=FORMERR"}[letter]
 
 
+def mirror(tok):
+    """same per-family outcomes, the other query completes first (not possible with a timeout)"""
+    if len(tok) != 3 or "T" in tok:
+        return tok
+    return ("b" if tok[0] == "a" else "a") + tok[2] + tok[1]
+
+
+def rounds(script, unspec, qt):
+    """ops answering, round by round, the transmission(s) made last: xl (single query) or
+    xl-1 = A and xl = AAAA (AF_UNSPEC)"""
+    ops = []
+    for tok in script:
+        if unspec:
+            first, l1, l2 = tok[0], tok[1], tok[2]
+            fx, fq = ("xl-1", "A") if first == "a" else ("xl", "AAAA")
+            sx, sq = ("xl", "AAAA") if first == "a" else ("xl-1", "A")
+            if l1 != "T":
+                ops.append("rsp %s %s" % (fx, spec(l1, fq)))
+            if l2 != "T":
+                ops.append("rsp %s %s" % (sx, spec(l2, sq)))
+            ops.append("proc")
+            if l2 == "T":
+                ops += ["adv 10000", "proct"]
+        else:
+            if tok == "T":
+                ops += ["adv 10000", "proct"]
+            else:
+                ops += ["rsp xl %s" % spec(tok, qt), "proc"]
+    return ops
+
+
 def gen_case(rng, tier, forced=None):
     api = rng.choice(["search", "search", "gai4", "gai6", "gai0", "gai0", "gai0", "ghbn4", "ghbn0"])
     if forced is not None:
@@ -78,15 +109,14 @@ def gen_case(rng, tier, forced=None):
     if use_alias:
         cfg.append("hostaliases=" + ALIASES)
     ncand = len(doms) + 1
-    rounds = ncand + 1
+    nrounds = ncand + 1
     unspec = api in ("gai0", "ghbn0")
     qt = {"search": "A", "gai4": "A", "gai6": "AAAA", "ghbn4": "A"}.get(api)
     # outcome letters: mostly soft so that the walk gets somewhere
     mood = rng.random()
     alphabet = "NX" * 4 + LETTERS if mood < 0.5 else ("NXSR" * 2 + LETTERS if mood < 0.8 else LETTERS)
     script = []
-    ops = []
-    for r_ in range(rounds):
+    for r_ in range(nrounds):
         if forced is not None and r_ < len(forced):
             tok = forced[r_]
         elif unspec:
@@ -95,38 +125,23 @@ def gen_case(rng, tier, forced=None):
                 tok = tok[0] + tok[1] + (tok[1] if tok[1] in "NXSRT" else tok[2])
         else:
             tok = rng.choice(alphabet)
-        if unspec:
-            first, l1, l2 = tok[0], tok[1], tok[2]
-            xa, xb = "x%d" % (2 * r_), "x%d" % (2 * r_ + 1)
-            fx, fq = (xa, "A") if first == "a" else (xb, "AAAA")
-            sx, sq = (xb, "AAAA") if first == "a" else (xa, "A")
-            if l1 == "T" and l2 != "T":
-                # the one that times out completes last
-                l1, l2 = l2, "T"
-                fx, fq, sx, sq = sx, sq, fx, fq
-                tok = ("b" if first == "a" else "a") + l1 + l2
-            if l1 != "T":
-                ops.append("rsp %s %s" % (fx, spec(l1, fq)))
-            if l2 != "T":
-                ops.append("rsp %s %s" % (sx, spec(l2, sq)))
-            ops.append("proc")
-            if l2 == "T":
-                ops.append("adv 10000")
-                ops.append("proct")
-        else:
-            if tok == "T":
-                ops += ["adv 10000", "proct"]
-            else:
-                ops += ["rsp x%d %s" % (r_, spec(tok, qt)), "proc"]
+        if unspec and tok[1] == "T" and tok[2] != "T":
+            tok = ("b" if tok[0] == "a" else "a") + tok[2] + "T"   # the one that times out completes last
         script.append(tok)
     nmx = nm if nm else "-"
-    if api == "search":
-        req = "search 1 %s IN A rd" % nmx
-    elif api.startswith("gai"):
-        req = "gai 1 %s %s 0x80" % (nmx, api[3])
-    else:
-        req = "ghbn 1 %s %s" % (nmx, api[4])
-    return " ".join(cfg) + "|" + ";".join(["note script=" + "/".join(script), req] + ops)
+
+    def req(t):
+        if api == "search":
+            return "search %d %s IN A rd" % (t, nmx)
+        if api.startswith("gai"):
+            return "gai %d %s %s 0x80" % (t, nmx, api[3])
+        return "ghbn %d %s %s" % (t, nmx, api[4])
+    ops = ["note script=" + "/".join(script), req(1)] + rounds(script, unspec, qt)
+    if unspec:
+        # the same request again with the two answers of every candidate arriving in the
+        # opposite order: the result must be the same
+        ops += ["note mirror", req(2)] + rounds([mirror(t) for t in script], unspec, qt)
+    return " ".join(cfg) + "|" + ";".join(ops)
 
 
 def gen(rng, tier, n):
